@@ -1,6 +1,8 @@
 package checks
 
 import (
+	"strconv"
+	"regexp"
 	"fmt"
 	"os"
 	"path/filepath"
@@ -183,6 +185,38 @@ func headerCatalogue(pkg string) (*spec.File, []*hdrDecl) {
 	add("order/optional-between/no-override", []spec.Header{reqd("X-One", "integer", ""), opt("X-Trace"), reqd("X-Two", "boolean", "")}, []spec.Header{opt("X-Idem"), reqd("X-Three", "string", "date")})
 	add("order/optional-first/override-optional", []spec.Header{opt("X-Trace"), reqd("X-Tenant", "integer", ""), reqd("X-Tok", "integer", "")}, []spec.Header{{Name: "X-Trace", Type: "boolean", Required: true}})
 	add("order/override-two", []spec.Header{opt("X-Trace"), reqd("X-A", "integer", ""), reqd("X-B", "integer", ""), reqd("X-C", "integer", "")}, []spec.Header{reqd("X-C", "boolean", ""), reqd("X-A", "string", "uuid")})
+	// many declarations on one route (sorting and merging code behaves differently beyond small sizes): n
+	// service-level headers, one of them required and re-declared by the method with another type, in
+	// ascending, descending and scattered name order, the re-declared one first, in the middle or last
+	for _, nh := range []int{13, 16, 24} {
+		for _, ord := range []string{"asc", "desc", "scattered"} {
+			for _, pos := range []string{"first", "mid", "last"} {
+				var names []string
+				for i := 0; i < nh-1; i++ {
+					k := i
+					switch ord {
+					case "desc":
+						k = nh - 2 - i
+					case "scattered":
+						k = (i*7 + 3) % (nh - 1)
+					}
+					names = append(names, fmt.Sprintf("X-Hdr-%c%02d", 'A'+rune(k%26), k))
+				}
+				at := map[string]int{"first": 0, "mid": (nh - 1) / 2, "last": nh - 1}[pos]
+				var svc []spec.Header
+				for i, nm := range names {
+					if i == at {
+						svc = append(svc, reqd("X-Tok", "integer", ""))
+					}
+					svc = append(svc, opt(nm))
+				}
+				if at >= len(names) {
+					svc = append(svc, reqd("X-Tok", "integer", ""))
+				}
+				add(fmt.Sprintf("many/%d-headers/%s/override-%s", nh, ord, pos), svc, []spec.Header{reqd("X-Tok", "string", "uuid"), opt("X-Method-Only")})
+			}
+		}
+	}
 	// several methods in one service: each method's verdict depends on its own declarations only
 	addMulti := func(label string, svc []spec.Header, mths [][]spec.Header) {
 		n++
@@ -344,6 +378,35 @@ type hdrScenario struct {
 	BadBody bool
 }
 
+// clearlyInvalidFor: v is invalid for header h under every published reading of its type and format.
+func clearlyInvalidFor(h spec.Header, v string) bool {
+	isInt := regexp.MustCompile(`^-?[0-9]+$`).MatchString(v)
+	switch h.Type {
+	case "integer":
+		return !isInt && v != ""
+	case "number":
+		_, err := strconv.ParseFloat(v, 64)
+		return err != nil && v != ""
+	case "boolean":
+		switch strings.ToLower(v) {
+		case "true", "false", "1", "0", "t", "f", "":
+			return false
+		}
+		return true
+	case "array":
+		return false
+	}
+	switch h.Format {
+	case "uuid":
+		return len(v) != 36 && v != ""
+	case "email":
+		return !strings.Contains(v, "@") && v != ""
+	case "date-time", "date", "time":
+		return v != "" && (v[0] < '0' || v[0] > '9')
+	}
+	return false
+}
+
 func c09decl(c *Ctx, d *hdrDecl, ch, node *lab.Child, gs, ts *srv, protoText string) {
 	validOf := func(h spec.Header) string {
 		for _, v := range headerValues(h.Type, h.Format) {
@@ -383,6 +446,30 @@ func c09decl(c *Ctx, d *hdrDecl, ch, node *lab.Child, gs, ts *srv, protoText str
 			scs = append(scs, hdrScenario{Class: "non-utf8", Headers: append(allValid(h.Name), [2]string{h.Name, "caf\xe9\xff"}), Offend: []string{h.Name},
 				// un-formatted strings: Go checks UTF-8, the published schema (type: string) cannot express it → only typed/format headers are asserted
 				Skip: (h.Type == "" || h.Type == "string") && h.Format == ""})
+		}
+	}
+	// a value that satisfies the service-level declaration a method re-declares, but is clearly invalid
+	// under the method's own (the effective) declaration, must be rejected like any other invalid value
+	for _, h := range d.Effective {
+		for _, sh := range d.Svc {
+			if !strings.EqualFold(sh.Name, h.Name) || (sh.Type == h.Type && sh.Format == h.Format) {
+				continue
+			}
+			isMth := false
+			for _, mh := range d.Mth {
+				if mh.Name == h.Name {
+					isMth = true
+				}
+			}
+			if !isMth {
+				continue
+			}
+			for _, v := range headerValues(sh.Type, sh.Format) {
+				if v.Valid && clearlyInvalidFor(h, v.V) {
+					hs := append(allValid(h.Name), [2]string{h.Name, v.V})
+					scs = append(scs, hdrScenario{Class: "invalid:valid-for-replaced-declaration:" + v.Class, Headers: hs, Offend: []string{h.Name}})
+				}
+			}
 		}
 	}
 	if len(d.Effective) > 1 {
